@@ -213,7 +213,7 @@ theorem half_key {s : SpecDesc} {x : TId} {m : Mapping Nat} {h : Half} (hh : hal
     cases hb : backingAt x 0 m with
     | none => simp [hk, hb] at hh
     | some p =>
-      cases ha : analytic s.arch s.workload (castM m) with
+      cases ha : analytic s.arch s.workload (castMapping m) with
       | none => simp [hk, hb, ha] at hh
       | some r =>
         simp only [hk, hb, ha, Option.some.injEq] at hh
